@@ -5,6 +5,7 @@ import (
 	"go/constant"
 	"go/token"
 	"os"
+	"strings"
 
 	"golang.org/x/tools/go/ssa"
 )
@@ -17,7 +18,8 @@ func init() {
 		Explanation: "C17.1 both generators and both handlers derive the password through one function (longTermCredentials) applied to the full username and the shared secret; the handlers return GenerateAuthKey(ra.Username, ra.Realm, that password) as key; " +
 			"C17.2 a handler returns ok=true only on the edge equivalent to stamp ≥ now — operator and operand order normalised to ¬(int64(stamp) < time.Now().Unix()), whole seconds on both sides — with stamp the Atoi of the leading field of the username on the Atoi-success edge; every other return has ok=false; " +
 			"C17.3 the generators stamp time.Now().Add(duration).Unix() formatted in base 10 as (the leading field of) the username; " +
-			"C17.4 GenerateAuthKey hashes username:realm:password of its parameters as given (no normalisation of one side's inputs).",
+			"C17.4 GenerateAuthKey hashes username:realm:password of its parameters as given (no normalisation of one side's inputs); " +
+			"C17.5 the derived password depends on both the username and the shared secret on every success return and on no state outside the parameters (no memo shared between secrets).",
 		NotCovered: "forgery resistance of HMAC-SHA1/MD5; the clock; usernames containing further colons beyond what the derivation over the full username already binds.",
 		Run:        runC17,
 	})
@@ -111,6 +113,7 @@ func runC17(c *Ctx) {
 	}
 
 	ruleAuthKeyPure(c, "C17.4")
+	rulePasswordPure(c, "C17.5")
 
 	// ---- handlers
 	c.Rule("C17.1", "handlers: the password is result #0 of longTermCredentials(ra.Username, sharedSecret) — the full presented username and the captured secret of the enclosing constructor — and the key returned with ok=true is GenerateAuthKey(ra.Username, ra.Realm, that password)", 2)
@@ -644,4 +647,49 @@ func (w *World) c17GeneratorSources(fn, derive, timeNow *ssa.Function) (string, 
 		}
 	}
 	return "", nDerive > 0
+}
+
+// rulePasswordPure (C17.5): the password of a time-windowed username is a function of the
+// username AND the shared secret, and of nothing else. Every nil-error return of the
+// derivation function yields a value that depends on both parameters and on no package-level
+// or remembered state: a result looked up by username alone (a memo shared by handlers of
+// different secrets) authenticates credentials minted under another secret.
+func rulePasswordPure(c *Ctx, rule string) {
+	w := c.W
+	c.Rule(rule, "the derived password depends on both the username and the shared secret on every success return of longTermCredentials, and on no state outside its parameters (no package-level variable or remembered table is read on the way)", 1)
+	fn := w.Func("turn", "", "longTermCredentials")
+	c.Anchor(rule, "longTermCredentials")
+	n := 0
+	bad := ""
+	for _, r := range returnsOf(fn) {
+		if len(r.Results) < 2 || !isNilConst(stripIface(w.resolveLoad(r.Results[1]))) {
+			continue
+		}
+		n++
+		for _, p := range fn.Params {
+			if !w.dependsOn(r.Results[0], func(x ssa.Value) bool { return x == ssa.Value(p) }, fn) {
+				bad = "the password returned at " + w.instrPos(r) + " does not depend on parameter " + p.Name() + ": a credential derived under one secret is accepted under another"
+			}
+		}
+		if bad == "" {
+			var g *ssa.Global
+			w.depWalk(r.Results[0], nil, func(x ssa.Value, _ []*ssa.Call) bool {
+				if gg, ok := x.(*ssa.Global); ok && gg.Pkg != nil && strings.HasPrefix(gg.Pkg.Pkg.Path(), modPath) && !strings.HasPrefix(gg.Name(), "err") {
+					g = gg
+				}
+				return false
+			})
+			if g != nil {
+				bad = "the password returned at " + w.instrPos(r) + " is computed from package-level state (" + g.Name() + "), not only from the username and the secret"
+			}
+		}
+	}
+	switch {
+	case n == 0:
+		c.Bad(rule, fname(fn), "longTermCredentials", w.pos(fn.Pos()), "no success return: anchor gone")
+	case bad != "":
+		c.Bad(rule, fname(fn), "longTermCredentials", w.pos(fn.Pos()), bad)
+	default:
+		c.OK(rule, fname(fn), "longTermCredentials", w.pos(fn.Pos()), fmt.Sprintf("%d success return(s): HMAC over the username keyed by the secret, nothing else", n))
+	}
 }
